@@ -737,11 +737,12 @@ unsigned coefficient_root_lower_bound(const coefficient_t* C) {
     }
   }
 
-  // Return the bound:
-  // * max_log is upper bound approximation, that's good
-  // * log_c0 is upper bound approximation, so we add one
-  // * max_log >= log_c0, so we're safe
-  return max_log - log_c0 + 1;
+  // Return the bound: with |c_0| >= 2^(log_c0 - 1) and max|c_i| < 2^max_log
+  //   1 + max|c_i|/|c_0| < 1 + 2^(max_log - log_c0 + 1) <= 2^(max_log - log_c0 + 2)
+  // (max_log >= log_c0), so 1/2^(max_log - log_c0 + 2) is below the Cauchy bound
+  // |c_0|/(|c_0| + max|c_i|). Adding only 1 is not enough, e.g. 2 - 7x - 7x^2 - 7x^3 - 7x^4
+  // has a root in (1/5, 1/4).
+  return max_log - log_c0 + 2;
 }
 
 int coefficient_is_assigned(const lp_polynomial_context_t* ctx, const coefficient_t* C, const lp_assignment_t* m) {
